@@ -2,6 +2,7 @@ package main
 
 import (
 	"fmt"
+	"go/constant"
 	"go/token"
 	"go/types"
 	"sort"
@@ -24,7 +25,7 @@ func (c *Ctx) selWalker() *ssa.Function {
 		return nil
 	}
 	selT := c.named("Selection")
-	var best *ssa.Function
+	var best, fallback *ssa.Function
 	for f := range c.reachable(entry) {
 		if !c.inPkg(f) {
 			continue
@@ -43,6 +44,28 @@ func (c *Ctx) selWalker() *ssa.Function {
 				best = f
 			}
 		}
+		// the evaluator may be written out inside the walker: then the walker is the function that asserts the
+		// kinds of Selection, fills a response map it is given and reads the directive uses itself
+		if n >= 2 && c.skipEval() == nil {
+			hasMap := false
+			for _, p := range f.Params {
+				if isStrIfaceMap(p.Type()) {
+					hasMap = true
+				}
+			}
+			readsDirs := false
+			for _, ci := range callsIn(f) {
+				if ci.Common().IsInvoke() && ci.Common().Method.Name() == "Directives" {
+					readsDirs = true
+				}
+			}
+			if hasMap && readsDirs && (fallback == nil || fnName(f) < fnName(fallback)) {
+				fallback = f
+			}
+		}
+	}
+	if best == nil {
+		return fallback
 	}
 	return best
 }
@@ -748,13 +771,62 @@ func c09KeyOrError(c *Ctx, r *Report, a *Anchors, rule string) {
 	}
 	n := 0
 	var witness *ssa.Return
-	seen := map[*ssa.BasicBlock]bool{}
-	var walk func(b *ssa.BasicBlock)
-	walk = func(b *ssa.BasicBlock) {
-		if witness != nil || seen[b] {
+	// The search follows the control flow from the entry and stops at events. A boolean that is a phi of
+	// constants (a "handled" flag set on some paths) is known on the path that set it: the branch that
+	// tests it is followed on the matching side only.
+	seen := map[string]bool{}
+	var walk func(b, prev *ssa.BasicBlock, facts map[ssa.Value]bool)
+	walk = func(b, prev *ssa.BasicBlock, facts map[ssa.Value]bool) {
+		if witness != nil {
 			return
 		}
-		seen[b] = true
+		if prev != nil {
+			for _, in := range b.Instrs {
+				phi, ok := in.(*ssa.Phi)
+				if !ok {
+					break
+				}
+				for i, pr := range b.Preds {
+					if pr != prev {
+						continue
+					}
+					v := phi.Edges[i]
+					if k, ok := v.(*ssa.Const); ok && k.Value != nil && k.Value.Kind() == constant.Bool {
+						nf := map[ssa.Value]bool{}
+						for kk, vv := range facts {
+							nf[kk] = vv
+						}
+						nf[phi] = constant.BoolVal(k.Value)
+						facts = nf
+					} else if bv, known := facts[v]; known {
+						nf := map[ssa.Value]bool{}
+						for kk, vv := range facts {
+							nf[kk] = vv
+						}
+						nf[phi] = bv
+						facts = nf
+					} else if _, had := facts[phi]; had {
+						nf := map[ssa.Value]bool{}
+						for kk, vv := range facts {
+							if kk != ssa.Value(phi) {
+								nf[kk] = vv
+							}
+						}
+						facts = nf
+					}
+				}
+			}
+		}
+		var fk []string
+		for k, v := range facts {
+			fk = append(fk, fmt.Sprintf("%s=%v", k.Name(), v))
+		}
+		sort.Strings(fk)
+		key := fmt.Sprintf("%d|%s", b.Index, strings.Join(fk, ","))
+		if seen[key] {
+			return
+		}
+		seen[key] = true
 		for _, in := range b.Instrs {
 			if isEvent(in) {
 				return
@@ -780,12 +852,24 @@ func c09KeyOrError(c *Ctx, r *Report, a *Anchors, rule string) {
 				}
 				return
 			}
+			if ifi, ok := in.(*ssa.If); ok {
+				g := normGuard(guard{ifi.Cond, true, ifi})
+				if bv, known := facts[g.cond]; known {
+					// g.cond == bv; the true successor is taken when cond (as written) is true
+					taken := 0
+					if bv != g.val {
+						taken = 1
+					}
+					walk(b.Succs[taken], b, facts)
+					return
+				}
+			}
 		}
 		for _, s := range b.Succs {
-			walk(s)
+			walk(s, b, facts)
 		}
 	}
-	walk(fn.Blocks[0])
+	walk(fn.Blocks[0], nil, map[ssa.Value]bool{})
 	for range returnsOf(fn) {
 		n++
 	}
